@@ -49,7 +49,21 @@ def check(prog, rep):
             if hr is None:
                 continue  # not supported on shallow trees either (C01/C02/C04 report that)
             ok = hi is not None or _default_is_conservative(label, di)
-            rep.ob("R15.1", f"{i.name}", ok,
+            if not ok:
+                from .common import helper_closure
+                tested = False
+                for g in helper_closure(prog, i, depth=1):
+                    if g is r or g is i:
+                        continue
+                    for n_ in ast.walk(g.node):
+                        if isinstance(n_, ast.Call) and dotted(n_.func) == "isinstance" and len(n_.args) == 2:
+                            ks_ = n_.args[1].elts if isinstance(n_.args[1], ast.Tuple) else [n_.args[1]]
+                            if any((dotted(k_) or "").split(".")[-1] == k for k_ in ks_):
+                                tested = True
+                if tested:
+                    rep.undecided(f"{i.name}: {k} has no arm in the walker's own dispatch chain but is tested for in a helper it calls; not decided")
+                    continue
+            rep.ob("R15.1", f"{i.name}", ok, robust=True, msg=
                    f"{k}: handled by both siblings" if hi is not None else (f"{k}: handed to the recursive sibling / conservative default ({label})" if ok else
                    f"{k} is handled by {r.name} (line {hr.lineno}) but {i.name} has no arm for it: the same formula works on a shallow tree and raises once the tree is deep enough to switch algorithms"),
                    loc=f"{i.module.rel}:{hi.lineno if hi is not None else i.node.lineno}", detail=f"kind:{k}")
@@ -66,7 +80,10 @@ def check(prog, rep):
                 in_i = op in hi_ or generic_i or (label == "degree")
                 if not in_r:
                     continue
-                rep.ob("R15.1", f"{i.name}", in_i,
+                if not in_i and not hi_:
+                    rep.undecided(f"{i.name}: the {kind} arm does not dispatch on operator literals in a form this rule reads; operator coverage not decided")
+                    break
+                rep.ob("R15.1", f"{i.name}", in_i, robust=True, msg=
                        f"{kind} {op!r}: handled by both siblings" if in_i else
                        f"{kind} operator {op!r} has a rule in {r.name} but none in {i.name}: a deep chain containing it raises although the shallow one works",
                        loc=f"{i.module.rel}:{ai.lineno}", detail=f"op:{op}")
@@ -87,7 +104,7 @@ def check(prog, rep):
             # differ, which says nothing about the values
             rep.undecided(f"degree[{key}]: answer form not recognised ({a} / {b}); sibling agreement not decided on this view")
             continue
-        rep.ob("R15.2", f"degree[{key}]", a == b, f"both analysers answer {a}" if a == b else f"recursive analyser answers {a}, iterative analyser answers {b}: the classification of one formula changes when the tree gets deep", loc=prog.func(PAIRS[1][2]).loc, detail="form")
+        rep.ob("R15.2", f"degree[{key}]", a == b, f"both analysers answer {a}" if a == b else f"recursive analyser answers {a}, iterative analyser answers {b}: the classification of one formula changes when the tree gets deep", loc=prog.func(PAIRS[1][2]).loc, detail="form", robust=True)
 
     # ------------------------------------------------------------------ R15.2 gradient: arm terms agree
     try:
@@ -99,7 +116,7 @@ def check(prog, rep):
         ti = gradient_arm_terms(prog, prog.func(PAIRS[0][2]))
         for key in sorted(k for k in set(tr) & set(ti) if not k.endswith('@line') and not k.startswith('@')):
             same = tr[key].eq(ti[key])
-            rep.ob("R15.2", f"gradient[{key}]", same, "recursive and iterative walker build the same derivative term" if same else f"the two walkers build different derivative terms for {key}", loc=prog.func(PAIRS[0][2]).loc, detail="term")
+            rep.ob("R15.2", f"gradient[{key}]", same, "recursive and iterative walker build the same derivative term" if same else f"the two walkers build different derivative terms for {key}", loc=prog.func(PAIRS[0][2]).loc, detail="term", robust=True)
 
     # ------------------------------------------------------------------ R15.2 leaves: sibling arms are the same code modulo names
     import re
